@@ -57,7 +57,7 @@ package domainmatcher
 //@ func (m *DomainMatcher) Add(labels [][]byte)
 //@   props C11
 //@   requires m != nil
-//@   modifies field(domainmatcher.labelNode), field(domainmatcher.DomainMatcher), field(domainmatcher.RegexpMatcher), maps(domainmatcher.labelNode)
+//@   modifies field(domainmatcher.labelNode), field(domainmatcher.DomainMatcher), maps(domainmatcher.labelNode)
 // the insertion walk mirrors the lookup: down from the rightmost label, one step per non-empty label, each in the
 // node the previous step reached; the leftmost label becomes the entry, the others inner nodes; an entry already
 // on the way (a broader rule) ends the walk and stays an entry; no label at all is the root entry
@@ -137,29 +137,72 @@ package domainmatcher
 //@   modifies nothing
 //@   ensures ok == mmatch(m, n)
 
-//@ spec func mixOK(m *MixMatcher) bool = m != nil && m.full != nil && m.full.m != nil && m.domain != nil && m.regexp != nil
+//@ spec func reOK(m *RegexpMatcher) bool = m.m != nil && forallkey(k, m.m, has(m.m, k) ==> m.m[k] != nil)
+//@ spec func mixOK(m *MixMatcher) bool = m != nil && m.full != nil && m.full.m != nil && m.domain != nil && m.regexp != nil && reOK(m.regexp)
 //@ func NewMixMatcher() (m *MixMatcher)
 //@   trusted
 //@   modifies nothing
-//@   ensures m != nil && fresh(m) && mixOK(m) && fresh(m.full) && fresh(m.full.m) && fresh(m.domain) && fresh(m.regexp)
+//@   ensures m != nil && fresh(m) && mixOK(m) && fresh(m.full) && fresh(m.full.m) && fresh(m.domain) && fresh(m.regexp) && fresh(m.regexp.m)
+// RegexpMatcher (semantics of the expressions are Go's regexp package): an expression that compiles is kept under
+// its own text, one that does not is rejected and nothing is stored; a name is matched in its readable lower-level
+// form - produced from exactly this name, given back to the pool once - against the stored expressions.
 //@ func (m *RegexpMatcher) Add(exp string) (err error)
-//@   trusted
-//@   requires m != nil
-//@   modifies field(domainmatcher.labelNode), field(domainmatcher.DomainMatcher), field(domainmatcher.RegexpMatcher), maps(domainmatcher.labelNode)
+//@   props C11
+//@   requires m != nil && reOK(m)
+//@   modifies obj(m.m)
+//@   ensures reOK(m)
+//@   ensures [C11:compiled-expression-kept] err == nil ==> has(m.m, exp) && m.m[exp] != nil
+//@   ensures [C11:bad-expression-rejected-nothing-stored] err != nil ==> !has(m.m, exp)
+//@   ensures [C11:others-untouched] forallkey(k, m.m, k != keyOf(m.m, exp) ==> has(m.m, k) == old(has(m.m, k)) && m.m[k] == old(m.m[k]))
+//@   ensures [C11:duplicate-keeps-the-first] old(has(m.m, exp)) ==> m.m[exp] == old(m.m[exp])
+//@   callsite Compile?: [C11:compiles-the-entry-text] arg0 == exp
+
+//@ func (m *RegexpMatcher) Match(n []byte) (ok bool)
+//@   props C11 C20 C01
+//@   requires m != nil && reOK(m)
+//@   ghost gB pool.Buffer = nil
+//@   ghost gE error = nil
+//@   ghost nConv int = 0
+//@   ghost nRel int = 0
+//@   ghost gR bool = false
+//@   oncall ToReadable?: nConv = nConv + 1
+//@   aftercall ToReadable?: gB = ret0
+//@   aftercall ToReadable?: gE = ret1
+//@   aftercall matchReadable?: gR = ret0
+//@   oncall ReleaseBuf?: nRel = nRel + 1
+//@   modifies nothing
+//@   callsite ToReadable?: [C11:readable-form-of-this-name] arg0 == n
+//@   callsite matchReadable?: [C11:expressions-see-the-readable-form] arg0 == m && arg1 == gB && gE == nil
+//@   callsite ReleaseBuf?: [C20:gives-back-its-own-buffer-once] arg0 == gB && nRel == 0
+//@   ensures [C11:unreadable-name-no-match] nConv == 1 && gE != nil ==> !ok
+//@   ensures [C11:result-of-the-expressions] nConv == 1 && gE == nil ==> ok == gR && nRel == 1
+//@   ensures [C11:no-expression-no-match] nConv == 0 ==> !ok
+
+//@ func (m *RegexpMatcher) matchReadable(n []byte) (ok bool)
+//@   props C11
+//@   requires m != nil && reOK(m)
+//@   ghost nHit int = 0
+//@   aftercall Match: nHit = nHit + (ret0 ? 1 : 0)
+//@   modifies nothing
+//@   callsite Match: [C11:each-expression-sees-the-name] arg1 == n
+//@   ensures [C11:matches-iff-an-expression-does] ok == (nHit > 0)
+//@   loop 1:
+//@     invariant nHit == 0
 
 // MixMatcher.Add: the text after the optional "type:" prefix reaches the name parser octet for octet (a sub-slice
 // of the rule, never a transformed copy); what was parsed is lower-cased by dnsmsg.ToLowerName (ASCII A-Z only, the
 // folding queries get) exactly once before it is inserted; unknown types are an error.
 //@ func (m *MixMatcher) Add(rule []byte) (err error)
 //@   props C11
-//@   requires m != nil && m.full != nil && m.full.m != nil && m.domain != nil && m.regexp != nil
+//@   requires mixOK(m)
+//@   ensures mixOK(m)
 //@   ghost nLow int = 0
 //@   ghost nParse int = 0
 //@   ghost nIns int = 0
 //@   oncall ToLowerName?: nLow = nLow + 1
 //@   oncall ParseReadable?: nParse = nParse + 1
 //@   oncall Add?: nIns = nIns + 1
-//@   modifies field(domainmatcher.labelNode), field(domainmatcher.DomainMatcher), field(domainmatcher.RegexpMatcher), maps(domainmatcher.labelNode), obj(m.full.m)
+//@   modifies field(domainmatcher.labelNode), field(domainmatcher.DomainMatcher), maps(domainmatcher.labelNode), obj(m.full.m), obj(m.regexp.m)
 //@   noterm
 //@   ensures [C11:parsed-names-are-ascii-lowered-once] nParse <= 1 && (err == nil && nParse == 1 ==> nLow == 1)
 //@   ensures [C11:one-entry-per-rule] err == nil ==> nIns == 1
@@ -176,12 +219,13 @@ package domainmatcher
 //@ func LoadMixMatcherFromReader(m *MixMatcher, r io.Reader) (err error)
 //@   props C11
 //@   requires mixOK(m)
-//@   modifies field(domainmatcher.labelNode), field(domainmatcher.DomainMatcher), field(domainmatcher.RegexpMatcher), maps(domainmatcher.labelNode), obj(m.full.m)
+//@   ensures mixOK(m)
+//@   modifies field(domainmatcher.labelNode), field(domainmatcher.DomainMatcher), maps(domainmatcher.labelNode), obj(m.full.m), obj(m.regexp.m)
 //@   noterm -- reading ends when the reader does (bufio.Scanner); not a property of this code
 //@   callsite Add?: [C11:entry-is-the-uncommented-trimmed-line] len(arg1) > 0 && forall(j, 0, len(arg1), arg1[j] != '#')
 //@             && !asciiSpace(arg1[0]) && !asciiSpace(arg1[len(arg1)-1])
 //@   loop 1:
-//@     modifies field(domainmatcher.labelNode), field(domainmatcher.DomainMatcher), field(domainmatcher.RegexpMatcher), maps(domainmatcher.labelNode), obj(m.full.m)
+//@     modifies field(domainmatcher.labelNode), field(domainmatcher.DomainMatcher), maps(domainmatcher.labelNode), obj(m.full.m), obj(m.regexp.m)
 //@     invariant mixOK(m)
 //@ func (m *MixMatcher) Len() (n int)
 //@   trusted
